@@ -577,13 +577,8 @@ def samapOpReset (st : St) (trees : Std.HashMap String JVal) (head outToks : Lis
          | ["panic"] => some none
          | "ok" :: rest => (parseJMap 0 rest).map fun (x, _) => some x
          | _ => none
-       let emptied : JVal := match m with | .map _ _ mn _ _ => .map 0 0 mn [] [] | x => x
-       -- a nil-pointer root: dereferenced (panic); repaired, Reset does nothing
-       let model (c : LibCfg) : Option JVal := match f with
-         | .ptr | .ptrptr => some emptied
-         | .nilPtr | .ptrNilPtr =>
-           if c.samapNilPtrPanics then none else some (match m with | .map _ _ mn ks vs => .map 0 0 mn ks vs | x => x)
-         | _ => some (match m with | .map _ _ mn ks vs => .map 0 0 mn ks vs | x => x)
+       -- a nil-pointer root: dereferenced (panic); repaired, Reset does nothing (`samapReset`, Lib/StrAnyMap.lean)
+       let model (c : LibCfg) : Option JVal := samapReset c f m
        let _ : BEq (Option JVal) := ⟨fun a b => match a, b with | some x, some y => jeq x y | none, none => true | _, _ => false⟩
        let acc (o : Option JVal) : Bool := match f, o with
          | .ptr, some (.map _ _ _ ks _) | .ptrptr, some (.map _ _ _ ks _) => ks.isEmpty
@@ -605,13 +600,12 @@ def samapOpLoop (st : St) (trees : Std.HashMap String JVal) (parts : List (List 
        let j := rootJ f m
        let sc : LoopScript := { wantKey := [wk == "1"], ctl := ck.toList.map (fun c => c.toNat - 48) }
        -- the node the path leads to
+       -- a nil pointer to a map: dereferenced (panic); repaired, it is a nil map: nothing to iterate over
+       -- (`samapLoop`, Lib/StrAnyMap.lean)
        let target : Option (List Bytes × List JVal) × String :=
-         match samapGet st.lib j p with
-         | .node (.map _ 0 _ ks vs) => (some (ks, vs), "done")
-         -- a nil pointer to a map: dereferenced (panic); repaired, it is a nil map: nothing to iterate over
-         | .node (.map _ _ _ ks vs) => if st.lib.samapNilPtrPanics then (none, "panic") else (some (ks, vs), "done")
-         | .node _ => (none, "unsupported")
-         | .none => (none, "done")
+         match samapLoop st.lib j p with
+         | .iterate ks vs => (some (ks, vs), "done")
+         | .nothing => (none, "done")
          | .unsupported => (none, "unsupported")
          | .panic => (none, "panic")
        let n := match target.1 with | some (ks, _) => ks.length | none => 0
